@@ -56,9 +56,14 @@ package inspector
 //@   ensures ghost(r.Body).backing == 0 || !ghost(ghost(r.Body).backing).released
 
 // the debugging inspector used by the translators (writes log files; touches nothing the proofs talk about)
+//@ func (s *Simple) GetSessionHeader
+//@   property C13
+//@   safety
+//@   requires s != nil
 //@ func (s *Simple) Enabled
 //@   property C13
-//@   trusted
+//@   safety
+//@   requires s != nil
 //@ func (s *Simple) LogResponse
 //@   property C13
 //@   trusted
